@@ -529,8 +529,12 @@ def run(tier, seed, replay):
 
     extra_chk = {}
     if tier == "thorough" and not getattr(chk, "proof_broken", False):
-        ok, ax, tail = common.coqchk_all()
-        extra_chk = {"coqchk": {"command": "coqchk -o -silent -Q theories Verif <every Props module>", "axioms": ax, "ok": ok}}
+        ok, ax, tail, skipped = common.coqchk_all()
+        extra_chk = {"coqchk": {"command": "coqchk -o -silent -Q theories Verif <every Props module that builds>", "axioms": ax,
+                                "ok": ok, "directories_not_rechecked_here": skipped}}
+        if skipped:
+            chk.notes.append("coqchk: the directories %s do not build at this moment (facts regenerated from another tree, or broken "
+                             "proofs: their own checks report that) and were left out of this re-check" % ", ".join(skipped))
         if not ok:
             chk.violation("coqchk", {"axioms": ax, "output": tail}, "coqchk does not accept the development / reports axioms: %s" % ax,
                           no_input=True)
